@@ -925,6 +925,9 @@ fn corpus() -> Vec<((usize, usize, Vec<usize>), Vec<(Op, u64)>)> {
         // lexer becomes unparsable / unreadable; missing token
         ((1, 1, d.clone()), vec![b.clone(), (Op::EditL(5), 1), b.clone(), (Op::EditL(0), 1), b.clone(), (Op::EditL(1), 1), b.clone(), (Op::EditG(2), 1), b.clone()]),
         ((1, 1, nested.clone()), vec![b.clone(), (Op::EditL(5), 1), b.clone(), (Op::EditL(1), 1), b.clone(), (Op::EditG(2), 1), b.clone(), (Op::Opt(14, 1), 1), b.clone()]),
+        // a conflicting grammar built leniently, then strictly (and back): the second build must fail
+        ((7, 1, { let mut x = d.clone(); x[2] = 0; x }), vec![b.clone(), (Op::Opt(2, 1), 1), b.clone(), (Op::Opt(2, 0), 1), b.clone()]),
+        ((7, 1, { let mut x = nested.clone(); x[2] = 0; x }), vec![b.clone(), (Op::Opt(2, 1), 1), b.clone()]),
         // options that carry data: only the data changes between two builds (same variant / same setter)
         ((1, 1, { let mut x = d.clone(); x[5] = 5; x }), vec![b.clone(), (Op::Opt(5, 6), 1), b.clone(), (Op::Opt(5, 5), 1), b.clone()]),
         ((1, 1, { let mut x = d.clone(); x[12] = 5; x }), vec![b.clone(), (Op::Opt(12, 6), 1), b.clone(), (Op::Opt(12, 5), 1), b.clone()]),
